@@ -266,7 +266,7 @@ theorem implJoinMask_eq_jmOf (kl kr : List (List Key)) (n1 n2 : Nat) :
 
 /-- On legal key tuples the coded row test is membership by value. -/
 theorem implRowMatch_eq_spec (n1 n2 : Nat) (l r : List Key) (hl : l.length ≤ n1) (hr : r.length ≤ n2)
-    (hok : n1 = n2 → rowsOk l r = true) :
+    (hok : n1 = n2 → n1 ≠ 1 → rowsOk l r = true) :
     Impl.rowMatch n1 n2 l r = Spec.rowMatch n1 n2 l r := by
   unfold Impl.rowMatch Spec.rowMatch
   by_cases h11 : n1 = 1 ∧ n2 = 1
@@ -274,7 +274,7 @@ theorem implRowMatch_eq_spec (n1 n2 : Nat) (l r : List Key) (hl : l.length ≤ n
   · simp only [h11, if_false]
     by_cases hnn : n1 = n2
     · simp only [hnn, if_true]
-      exact nnMatch_eq l r (hok hnn)
+      exact nnMatch_eq l r (hok hnn (fun h => h11 ⟨h, hnn ▸ h⟩))
     · simp only [hnn, if_false]
       by_cases h1 : n1 = 1
       · simp only [h1, if_true]
